@@ -240,8 +240,26 @@ def validate_parallel(ctx, events, cfg_text, groups, name="tv"):
     return verdicts, by_t
 
 
+def inductive(ctx):
+    """Unbounded complement (thorough): LimitsInd.tla's inductive invariant discharged by Apalache.
+    A failure of the tool is recorded, it never decides the property."""
+    res = {}
+    for nm, args in (("init_implies_inv", ["--cinit=CInit", "--init=Init", "--inv=IndInv", "--length=0"]),
+                     ("inv_is_inductive", ["--cinit=CInit", "--init=IndInit", "--inv=IndInv", "--length=1"]),
+                     ("inv_implies_at_most_N", ["--cinit=CInit", "--init=IndInit", "--inv=AtMostN", "--length=0"])):
+        try:
+            ok, tail = ctx.apalache("LimitsInd", args, name="apalache-" + nm, timeout=600)
+        except Exception as e:  # tool missing etc.
+            ok, tail = False, str(e)
+        res[nm] = "discharged" if ok else "NOT discharged: " + tail[-200:]
+    ctx.cov["apalache_inductive_invariant"] = res
+    ctx.log("Apalache inductive invariant (LimitsInd.tla): %s" % res)
+
+
 def run(ctx, replay):
     thorough = ctx.tier == "thorough"
+    if thorough and not replay:
+        inductive(ctx)
     findings = load_findings()
     odev = open_devs(findings, "api")
     ex = cf.ThreadPoolExecutor(max_workers=12)
